@@ -133,7 +133,7 @@ pub struct Ctx {
 fn quick_boost(prop: &str) -> f64 {
     match prop {
         "C01" => 2.0,
-        "C02" => 10.0,
+        "C02" => 6.0,
         "C03" => 12.0,
         "C04" => 5.0,
         "C05" => 8.0,
